@@ -73,6 +73,7 @@ class Model : public IMachine {
     bool visit(int mode, std::vector<int>& out) override;
     int state_by_id(int mach, int id) const override;
     void clear_queue(int which) override;
+    long live_tracked() const override;
     void post(const Post& p) override;
     int state_data(int g) const override { return data_[g]; }
     void set_state_data(int g, int v) override { data_[g] = v; }
